@@ -6,6 +6,8 @@ C10 — helper lemmas (umbrella).  The development is split over
                                       NICK, reconnect, MODE
   Burst1 … Burst7                     NAMES / WHO / 324 / 329 / 367 replies, the bot's own JOIN, `run_inv`
   BatchSim                            everything the server emits is an ordinary message; batches; `runB_inv`
+  Complete                            every query of the bot is answered or still queued; `run_complete`
 -/
 import LimnoriaModel.C10.Burst7
 import LimnoriaModel.C10.BatchSim
+import LimnoriaModel.C10.Complete
